@@ -15,6 +15,7 @@ package main
 //   life close-waiting <k>                         Close while a receiver waits on the idle channel, then the receiver's context is cancelled
 //   life conn-close <nchan> <pending> [<gap>]      Conn.Close with <pending> unread packages per channel; logical channel <gap> closed before
 //   life close-pending <chan> <pending> <cap>      Close with <pending> packages of an abandoned response, queue capacity <cap>
+//   life close-refused <once>                      Close of a logical channel whose teardown packet the transport refuses
 //   life unknown-token <tok> <len>                 a message starting with a token without a package type, then a DONE, then Conn.Close
 //   life reader-exit <errors>                      peer closes, <errors> read errors unconsumed, then Conn.Close: reader ends
 // Answer: a list of `<call>=<class>` with class ∈ pkg | ctx | closed | err | ok | nothing, `blocked` when the
@@ -488,6 +489,10 @@ func lifeImpl(line string) string {
 			return out + " reader=ended"
 		}
 		return out + " reader=alive"
+	case "close-refused":
+		// Close of a logical channel whose teardown packet the transport refuses (scenario shared with C12:
+		// `mux closefail`): Close reports it, the channel is closed and no longer routed all the same
+		return strings.ReplaceAll(muxImpl("mux closefail "+f[2]), " ", "_")
 	case "unknown-token":
 		// the peer sends a message that starts with a token the library has no package for (TDS_INFO, TDS_CONTROL,
 		// TDS_OFFSET … are part of the protocol), <len> bytes long, then a message with a DONE: the reader is not
@@ -547,6 +552,12 @@ func lifeOracle(line, out string) string {
 		if i := strings.Index(t, "="); i > 0 {
 			kv[t[:i]] = t[i+1:]
 		}
+	}
+	if f[1] == "close-refused" {
+		if out != "ok_closefail" {
+			return "closing a channel tears it down on the client side whether or not the transport takes the teardown packet: " + strings.ReplaceAll(out, "_", " ")
+		}
+		return ""
 	}
 	switch f[1] {
 	case "cancel-recv", "conn-cancel-recv":
@@ -698,6 +709,9 @@ func init() {
 				for k := 11; k <= 14; k++ { // just beyond the capacity of the error queue (10)
 					emit(Case{Line: fmt.Sprintf("life reader-exit-unknown %d #%d", k, n), Kind: "reader-exit"})
 				}
+			}
+			for _, once := range []int{0, 1} {
+				emit(Case{Line: fmt.Sprintf("life close-refused %d", once), Kind: "close-teardown-refused"})
 			}
 			for _, tok := range []int{0xAB, 0xAE, 0x78, 0x7C, 0xA4, 0x01} { // INFO, CONTROL, OFFSET, PROCID, TABNAME, unassigned
 				for _, n := range []int{0, 1, 20, 600} {
